@@ -166,7 +166,7 @@ func VerifC13RandomConcurrent() {
 	s := New(false)
 	s.Refresh([]endpoint.Endpoint{c13Ep(0), c13Ep(1)})
 	done := make(chan struct{}, 1)
-	upd := vapi.Choice("update", 3)
+	upd := vapi.Choice("update", 4)
 	go func() {
 		switch upd {
 		case 0:
@@ -175,12 +175,16 @@ func VerifC13RandomConcurrent() {
 			_ = s.Add(c13Ep(2))
 		case 2:
 			s.Refresh([]endpoint.Endpoint{c13Ep(2)})
+		case 3: // the set is emptied while selections run
+			s.Refresh(nil)
 		}
 		done <- struct{}{}
 	}()
 	for k := 0; k < 2; k++ {
 		ep, err := s.Select(&c13Msg{code: vapi.Uint32("code")})
-		vapi.Check(err == nil, "concurrent: the set is never empty here, so Select succeeds")
+		if upd != 3 {
+			vapi.Check(err == nil, "concurrent: the set is never empty here, so Select succeeds")
+		}
 		if err == nil {
 			i := c13HostIndex(ep.Host)
 			switch upd {
@@ -190,11 +194,18 @@ func VerifC13RandomConcurrent() {
 				vapi.Check(i >= 0 && i <= 2, "concurrent: member of the old or the new set")
 			case 2:
 				vapi.Check(i >= 0 && i <= 2, "concurrent: member of the old or the new set")
+			case 3: // emptied meanwhile: an error, or a member of the old set - never a crash
+				vapi.Check(i == 0 || i == 1, "concurrent: member of the old or the new set")
 			}
 		}
 	}
 	<-done
 	ep, err := s.Select(&c13Msg{code: vapi.Uint32("code")})
+	if upd == 3 {
+		vapi.Check(err != nil, "concurrent: after the set was emptied Select fails with an error")
+		vapi.Reach("c13-random-concurrent")
+		return
+	}
 	vapi.Check(err == nil, "concurrent: select after the update")
 	i := c13HostIndex(ep.Host)
 	switch upd {
